@@ -307,6 +307,17 @@ def specServed (elapsedSec : Nat) (orig served : Msg) : Bool :=
   specServedRRs elapsedSec (realRRs orig.auth) (realRRs served.auth) &&
   specServedRRs elapsedSec (realRRs orig.add) (realRRs served.add)
 
+/-- the same bound without relying on the order of the records (a client without EDNS0 gets the additional
+    section with the OPT record swapped out, which may permute it): every served real record is one of the
+    original real records of the same type, aged -/
+def specServedAnyRRs (elapsedSec : Nat) (orig served : List RR) : Bool :=
+  (realRRs served).all fun s => (realRRs orig).any fun o =>
+    o.typ == s.typ && decide (s.ttl.toNat ≤ Nat.max 1 (o.ttl.toNat - elapsedSec))
+
+def specServedAny (elapsedSec : Nat) (orig served : Msg) : Bool :=
+  specServedAnyRRs elapsedSec orig.ans served.ans && specServedAnyRRs elapsedSec orig.auth served.auth &&
+  specServedAnyRRs elapsedSec orig.add served.add
+
 /-- outcome of "Store, then Get at once": `none` = miss, `some (lifeNs, served)`. -/
 abbrev StoreOut := Option (Nat × Msg)
 
@@ -389,7 +400,8 @@ def specHit (cfgMax : Int) (evs : List Ev) (i key tMs from_ : Nat) (life : Optio
     -- nothing is served once the lifetime has elapsed, allowing 2 s
     decide (tMs - e.t < specLifetime m cfgMax * 1000 + 2000 + tolMs) &&
     -- aged TTLs (the real elapsed time is at least planned − tol)
-    specServed ((tMs - e.t - tolMs) / 1000) m served &&
+    (if life.isSome then specServed ((tMs - e.t - tolMs) / 1000) m served
+     else specServedAny ((tMs - e.t - tolMs) / 1000) m served) &&
     -- an error response never displaces a live positive entry
     (m.rcode == 0 || !livePositiveBefore cfgMax evs (from_ - 1) key e.t)
 
@@ -406,6 +418,12 @@ def specHistFrom (cfgMax : Int) (evs : List Ev) (i : Nat) : List Ev → List Obs
   | _, _ => false
 
 def specHist (cfgMax : Int) (evs : List Ev) (obs : List Obs) : Bool := specHistFrom cfgMax evs 1 evs obs
+
+/-- the events of a history are listed in the order of their planned times -/
+def sortedEvs : List Ev → Bool
+  | [] => true
+  | [_] => true
+  | a :: b :: rest => decide (a.t ≤ b.t) && sortedEvs (b :: rest)
 
 /-! ### line protocol -/
 
@@ -567,7 +585,8 @@ def obsOfStrs : List Ev → List String → Option (List Obs)
 def runHist (toks : List String) (impl : String) : String × String :=
   match (kvGet toks "max").bind intOfStr, (kvGet toks "ev").bind (fun s => (s.splitOn ";").mapM evOfStr) with
   | some mx, some evs =>
-    if impl == "skip" then ("skip", "na")            -- the harness could not keep the planned timing
+    if !sortedEvs evs then ("bad-case", "na")
+    else if impl == "skip" then ("skip", "na")            -- the harness could not keep the planned timing
     else
       let out := strOfObsList (modelHist mx evs)
       let itoks := if impl == "-" then [] else impl.splitOn ";"
